@@ -1,0 +1,347 @@
+//! Verification shim, compiled only with the `uazu-stakker-verif` cargo feature.
+//!
+//! The inter-thread source files (`sync/waker.rs`, `sync/channel.rs`,
+//! `sync/thread.rs`) name everything they use from the standard
+//! library through `std::...` paths.  Under the verification cfg
+//! they alias `std` to this module, which re-exports the real `std`
+//! and wraps the few types whose operations an external
+//! deterministic scheduler needs to observe and order:
+//! `sync::atomic::AtomicUsize`, `sync::Mutex`, `sync::Condvar` and
+//! `thread::spawn`.  Without a registered [`Probe`] every wrapper is
+//! a plain pass-through to the real type.
+
+#![allow(missing_docs)]
+#![allow(clippy::all)]
+
+pub use ::std::*;
+
+use ::std::sync::atomic::Ordering as RealOrdering;
+use ::std::sync::Arc as RealArc;
+use ::std::sync::RwLock;
+
+/// Observer / scheduler interface.  Every `*_before` and lock-style
+/// call may block the calling thread until the scheduler lets it
+/// proceed.
+pub trait Probe: Send + Sync {
+    /// About to perform an atomic operation on location `loc`
+    fn atomic_before(&self, loc: usize, op: &'static str, arg: usize, ord: RealOrdering);
+    /// The operation returned `old` (for stores: the stored value)
+    fn atomic_after(&self, loc: usize, op: &'static str, old: usize);
+    /// Wants mutex `id`; returns when it may take it
+    fn mutex_lock(&self, id: usize);
+    /// Has released mutex `id`
+    fn mutex_unlock(&self, id: usize);
+    /// Waits on condvar `cv` having released `mutex`; returns when
+    /// notified and the mutex may be taken again
+    fn cv_wait(&self, cv: usize, mutex: usize);
+    fn cv_notify_all(&self, cv: usize);
+    /// A thread is being spawned by the calling thread; returns a token
+    fn thread_spawn(&self) -> usize;
+    /// First call in the new thread
+    fn thread_begin(&self, token: usize);
+    /// Last call in the thread (also when unwinding)
+    fn thread_end(&self);
+}
+
+static PROBE: RwLock<Option<RealArc<dyn Probe>>> = RwLock::new(None);
+
+/// Install (or remove) the probe.  Intended to be called once,
+/// before any instrumented object is used.
+pub fn set_probe(p: Option<RealArc<dyn Probe>>) {
+    *PROBE.write().unwrap() = p;
+}
+
+#[inline]
+fn probe() -> Option<RealArc<dyn Probe>> {
+    PROBE.read().unwrap().clone()
+}
+
+pub mod sync {
+    pub use ::std::sync::*;
+
+    use super::probe;
+    use ::std::ops::{Deref, DerefMut};
+    use ::std::sync as real;
+
+    pub mod atomic {
+        pub use ::std::sync::atomic::*;
+
+        use super::super::probe;
+        use ::std::sync::atomic as real;
+
+        /// Instrumented `AtomicUsize`
+        #[derive(Default, Debug)]
+        pub struct AtomicUsize(real::AtomicUsize);
+
+        macro_rules! rmw {
+            ($name:ident) => {
+                #[inline]
+                pub fn $name(&self, val: usize, order: Ordering) -> usize {
+                    if let Some(p) = probe() {
+                        let loc = self as *const Self as usize;
+                        p.atomic_before(loc, stringify!($name), val, order);
+                        let old = self.0.$name(val, order);
+                        p.atomic_after(loc, stringify!($name), old);
+                        old
+                    } else {
+                        self.0.$name(val, order)
+                    }
+                }
+            };
+        }
+
+        impl AtomicUsize {
+            pub const fn new(v: usize) -> Self {
+                Self(real::AtomicUsize::new(v))
+            }
+            pub fn get_mut(&mut self) -> &mut usize {
+                self.0.get_mut()
+            }
+            pub fn into_inner(self) -> usize {
+                self.0.into_inner()
+            }
+            #[inline]
+            pub fn load(&self, order: Ordering) -> usize {
+                if let Some(p) = probe() {
+                    let loc = self as *const Self as usize;
+                    p.atomic_before(loc, "load", 0, order);
+                    let v = self.0.load(order);
+                    p.atomic_after(loc, "load", v);
+                    v
+                } else {
+                    self.0.load(order)
+                }
+            }
+            #[inline]
+            pub fn store(&self, val: usize, order: Ordering) {
+                if let Some(p) = probe() {
+                    let loc = self as *const Self as usize;
+                    p.atomic_before(loc, "store", val, order);
+                    self.0.store(val, order);
+                    p.atomic_after(loc, "store", val);
+                } else {
+                    self.0.store(val, order)
+                }
+            }
+            rmw!(swap);
+            rmw!(fetch_or);
+            rmw!(fetch_and);
+            rmw!(fetch_xor);
+            rmw!(fetch_add);
+            rmw!(fetch_sub);
+            rmw!(fetch_nand);
+            rmw!(fetch_max);
+            rmw!(fetch_min);
+            #[inline]
+            pub fn compare_exchange(
+                &self,
+                current: usize,
+                new: usize,
+                success: Ordering,
+                failure: Ordering,
+            ) -> Result<usize, usize> {
+                if let Some(p) = probe() {
+                    let loc = self as *const Self as usize;
+                    p.atomic_before(loc, "compare_exchange", new, success);
+                    let r = self.0.compare_exchange(current, new, success, failure);
+                    p.atomic_after(loc, "compare_exchange", match r {
+                        Ok(v) => v,
+                        Err(v) => v,
+                    });
+                    r
+                } else {
+                    self.0.compare_exchange(current, new, success, failure)
+                }
+            }
+            #[inline]
+            pub fn compare_exchange_weak(
+                &self,
+                current: usize,
+                new: usize,
+                success: Ordering,
+                failure: Ordering,
+            ) -> Result<usize, usize> {
+                // never fails spuriously under the scheduler
+                self.compare_exchange(current, new, success, failure)
+            }
+            #[inline]
+            pub fn fetch_update<F>(
+                &self,
+                set_order: Ordering,
+                fetch_order: Ordering,
+                mut f: F,
+            ) -> Result<usize, usize>
+            where
+                F: FnMut(usize) -> Option<usize>,
+            {
+                let mut prev = self.load(fetch_order);
+                while let Some(next) = f(prev) {
+                    match self.compare_exchange(prev, next, set_order, fetch_order) {
+                        x @ Ok(_) => return x,
+                        Err(next_prev) => prev = next_prev,
+                    }
+                }
+                Err(prev)
+            }
+        }
+
+        impl From<usize> for AtomicUsize {
+            fn from(v: usize) -> Self {
+                Self::new(v)
+            }
+        }
+    }
+
+    /// Instrumented `Mutex`
+    #[derive(Default, Debug)]
+    pub struct Mutex<T: ?Sized> {
+        inner: real::Mutex<T>,
+    }
+
+    pub struct MutexGuard<'a, T: ?Sized + 'a> {
+        m: &'a Mutex<T>,
+        g: Option<real::MutexGuard<'a, T>>,
+    }
+
+    impl<T> Mutex<T> {
+        pub const fn new(t: T) -> Self {
+            Self {
+                inner: real::Mutex::new(t),
+            }
+        }
+        pub fn into_inner(self) -> LockResult<T> {
+            self.inner.into_inner()
+        }
+    }
+
+    impl<T: ?Sized> Mutex<T> {
+        fn id(&self) -> usize {
+            self as *const Self as *const u8 as usize
+        }
+        pub fn lock(&self) -> LockResult<MutexGuard<'_, T>> {
+            if let Some(p) = probe() {
+                p.mutex_lock(self.id());
+            }
+            match self.inner.lock() {
+                Ok(g) => Ok(MutexGuard { m: self, g: Some(g) }),
+                Err(e) => Err(PoisonError::new(MutexGuard {
+                    m: self,
+                    g: Some(e.into_inner()),
+                })),
+            }
+        }
+        pub fn is_poisoned(&self) -> bool {
+            self.inner.is_poisoned()
+        }
+        pub fn get_mut(&mut self) -> LockResult<&mut T> {
+            self.inner.get_mut()
+        }
+    }
+
+    impl<T: ?Sized> Deref for MutexGuard<'_, T> {
+        type Target = T;
+        fn deref(&self) -> &T {
+            self.g.as_ref().unwrap()
+        }
+    }
+
+    impl<T: ?Sized> DerefMut for MutexGuard<'_, T> {
+        fn deref_mut(&mut self) -> &mut T {
+            self.g.as_mut().unwrap()
+        }
+    }
+
+    impl<T: ?Sized> Drop for MutexGuard<'_, T> {
+        fn drop(&mut self) {
+            if let Some(g) = self.g.take() {
+                drop(g);
+                if let Some(p) = probe() {
+                    p.mutex_unlock(self.m.id());
+                }
+            }
+        }
+    }
+
+    /// Instrumented `Condvar`
+    #[derive(Default, Debug)]
+    pub struct Condvar {
+        inner: real::Condvar,
+    }
+
+    impl Condvar {
+        pub const fn new() -> Self {
+            Self {
+                inner: real::Condvar::new(),
+            }
+        }
+        fn id(&self) -> usize {
+            self as *const Self as usize
+        }
+        pub fn wait<'a, T>(&self, mut guard: MutexGuard<'a, T>) -> LockResult<MutexGuard<'a, T>> {
+            let m = guard.m;
+            let g = guard.g.take().unwrap();
+            if let Some(p) = probe() {
+                // The scheduler owns blocking and wake-up: release the
+                // real mutex, wait in the scheduler, take it again
+                drop(g);
+                p.mutex_unlock(m.id());
+                p.cv_wait(self.id(), m.id());
+                match m.inner.lock() {
+                    Ok(g) => Ok(MutexGuard { m, g: Some(g) }),
+                    Err(e) => Err(PoisonError::new(MutexGuard {
+                        m,
+                        g: Some(e.into_inner()),
+                    })),
+                }
+            } else {
+                match self.inner.wait(g) {
+                    Ok(g) => Ok(MutexGuard { m, g: Some(g) }),
+                    Err(e) => Err(PoisonError::new(MutexGuard {
+                        m,
+                        g: Some(e.into_inner()),
+                    })),
+                }
+            }
+        }
+        pub fn notify_all(&self) {
+            if let Some(p) = probe() {
+                p.cv_notify_all(self.id());
+            }
+            self.inner.notify_all();
+        }
+        pub fn notify_one(&self) {
+            // modelled as notify_all (spurious wake-ups are permitted)
+            self.notify_all();
+        }
+    }
+}
+
+pub mod thread {
+    pub use ::std::thread::*;
+
+    use super::probe;
+
+    struct EndGuard(::std::sync::Arc<dyn super::Probe>);
+    impl Drop for EndGuard {
+        fn drop(&mut self) {
+            self.0.thread_end();
+        }
+    }
+
+    pub fn spawn<F, T>(f: F) -> JoinHandle<T>
+    where
+        F: FnOnce() -> T + Send + 'static,
+        T: Send + 'static,
+    {
+        if let Some(p) = probe() {
+            let token = p.thread_spawn();
+            ::std::thread::spawn(move || {
+                p.thread_begin(token);
+                let _guard = EndGuard(p);
+                f()
+            })
+        } else {
+            ::std::thread::spawn(f)
+        }
+    }
+}
